@@ -344,22 +344,28 @@ def r05g(run):
     if "defer" not in g.params:
         raise AnalysisError("ParserField.get_default has no `defer` parameter")
     total = 0
-    for f in (A, B):
-        fa = analysis(f)
-        for n, c in fa.all_calls():
-            if call_attr(c) != "get_default":
+    scope = [x for x in run.repo.all_functions() if x.module.name.startswith("utype.parser") or x.module.name == "utype.schema"]
+    for f in scope:
+        if f is g:
+            continue
+        fa = None
+        for c in walk_shallow(f.node):
+            if not (isinstance(c, ast.Call) and call_attr(c) == "get_default" and isinstance(c.func, ast.Attribute)):
                 continue
             total += 1
             v = effective_arg(c, g, "defer")
-            ok = isinstance(v, ast.Constant) and v.value is False
-            run.check("R05g", f, f"`{unparse(c)[:50]}` asks for the non-deferred default (defer=False)", ok,
-                      construct="parse-time default with defer != False",
+            strategy = f in (A, B)
+            ok = isinstance(v, ast.Constant) and isinstance(v.value, bool) and (v.value is False or not strategy)
+            run.check("R05g", f, f"`{unparse(c)[:50]}` binds an explicit deferral mode"
+                      + (" (defer=False at parse time)" if strategy else ""), ok,
+                      construct="default requested with defer " + (unparse(v) if v is not None else "unbound"),
                       message=f"{f.qualname}: `{unparse(c)}` binds defer={unparse(v) if v is not None else 'nothing'} "
                               f"(explicit argument or the declared default of get_default)",
                       necessity="with defer=None get_default skips the defer test: a Field(defer_default=True) default "
-                                "(or Options(defer_default=True)) is evaluated and stored at parse time although it must "
-                                "stay absent until the attribute is read", node=c)
-    run.floor("R05g", "get_default calls in the lookup strategies", total, 4)
+                                "(or Options(defer_default=True)) is evaluated and stored at parse time - also on the "
+                                "exclude path of parse_value - although it must stay absent until the attribute is read",
+                      node=c)
+    run.floor("R05g", "get_default call sites", total, 7)
 
 
 def check(run):
